@@ -187,17 +187,22 @@ def generate(rnd, profile):
 
 # --- profile "effects": straight-line programs in which (almost) every sub-expression has an effect ----
 N_C, N_D, N_M, N_P, N_AR, N_MK = 12, 4, 3, 4, 2, 2
+N_FL, N_NT = 4, 4
 
 
 def _fx_header():
     out = ['from collections.abc import Callable', 'from guppylang import guppy',
-           'from guppylang.std.builtins import result, array, owned', '', '',
+           'from guppylang.std.builtins import result, array, owned, nat', '', '',
            '@guppy', 'def add(x: int, y: int) -> int:', '    return x + y', '', '',
            '@guppy', 'def sub(x: int, y: int) -> int:', '    return x - y', '', '']
     for k in range(1, N_C + 1):
         out += ['@guppy', f'def c{k}(v: int) -> int:', f'    result("c{k}", v)', f'    return v + {k}', '', '']
     for k in range(1, N_D + 1):
         out += ['@guppy', f'def d{k}(v: int, w: int) -> int:', f'    result("d{k}", v)', f'    return v * {k} - w', '', '']
+    for k in range(1, N_FL + 1):
+        out += ['@guppy', f'def fl{k}(v: int) -> float:', f'    result("fl{k}", v)', f'    return {k}.5', '', '']
+    for k in range(1, N_NT + 1):
+        out += ['@guppy', f'def nt{k}(v: int) -> nat:', f'    result("nt{k}", v)', f'    return nat({k})', '', '']
     for k in range(1, N_M + 1):
         out += ['@guppy', f'def m{k}() -> Callable[[int, int], int]:', f'    result("m{k}", 0)',
                 f'    return {"add" if k % 2 else "sub"}', '', '']
@@ -224,8 +229,8 @@ class GenFx:
 
     def __init__(self, rnd):
         self.r = rnd
-        self.n = {"c": 0, "d": 0, "m": 0, "p": 0, "ar": 0, "mk": 0}
-        self.lim = {"c": N_C, "d": N_D, "m": N_M, "p": N_P, "ar": N_AR, "mk": N_MK}
+        self.n = {"c": 0, "d": 0, "m": 0, "p": 0, "ar": 0, "mk": 0, "fl": 0, "nt": 0}
+        self.lim = {"c": N_C, "d": N_D, "m": N_M, "p": N_P, "ar": N_AR, "mk": N_MK, "fl": N_FL, "nt": N_NT}
         self.tag = 0
         self.ints = ["a", "b"]
         self.arrs, self.structs, self.fvs = [], [], []
@@ -280,8 +285,22 @@ class GenFx:
     def stmt(self, d):
         r = self.r
         k = r.random()
-        if k < 0.25:
+        if k < 0.17:
             return [f'result("{self.fresh_tag()}", {self.e(d)})']
+        if k < 0.25:
+            # operands of different numeric types: the reflected method (__radd__ ...) of the right operand's
+            # type, or a coercion, is used; Python still evaluates the left operand first.  Mixed-type
+            # comparisons whose left type lacks the method are a known deviation and are left out here.
+            kind = r.random()
+            if kind < 0.6:
+                l, rr = f"{self.fresh('c')}({self.e(d - 1)})", f"{self.fresh('fl')}({self.e(d - 1)})"
+                op = r.choice(["+", "-", "*", "/", "//", "%", "**"])
+            else:
+                l, rr = f"{self.fresh('c')}({self.e(d - 1)})", f"{self.fresh('nt')}({self.e(d - 1)})"
+                op = r.choice(["+", "-", "*", "//", "%", "&", "|", "^", "<<", ">>"])
+            if r.random() < 0.5:
+                l, rr = rr, l
+            return [f"_m{self.fresh_tag()} = {l} {op} {rr}"]
         if k < 0.33:
             return [f'result("{self.fresh_tag()}", {self.e(d)} {r.choice(["<", "==", ">=", "!="])} {self.e(d - 1)})']
         if k < 0.48:
